@@ -114,6 +114,29 @@ AspRule(i) ==
       htext == IF hk = 0 THEN "p(X) " ELSE IF hk = 1 THEN "{p(X)} " ELSE IF hk = 2 THEN "" ELSE "#false "
   IN [text |-> htext \o ":- " \o RElemText(e1) \o sep \o RElemText(e2) \o ".", head |-> head, body |-> <<RElem(e1), RElem(e2)>>]
 
+\* ---------------------------------------------------------------- entries of specifications, proof outlines and user guides
+ERoles == <<"assumption", "spec", "lemma", "definition", "inductive-lemma">>
+EDirs == <<"", "forward", "backward", "universal">>
+P1 == [k |-> "atom", p |-> "p", args |-> <<Nm(1)>>]
+\* role x direction annotation (none means universal) x name annotation
+NSpecEntries == 5 * 4 * 2
+SpecEntry(i) ==
+  LET role == ERoles[(i % 5) + 1]
+      d == EDirs[((i \div 5) % 4) + 1]
+      named == (i \div 20) % 2 = 1
+  IN [text |-> role \o (IF d = "" THEN "" ELSE "(" \o d \o ")") \o (IF named THEN "[nm_1]" ELSE "") \o ": p(1).",
+      tree |-> [role |-> role, dir |-> IF d = "" THEN "universal" ELSE d, name |-> IF named THEN "nm_1" ELSE "", f |-> P1]]
+\* input / output declarations of predicates, placeholders with and without sort, annotated assumptions
+NUgEntries == 6 + 4 + 8
+UgEntry(i) ==
+  IF i < 6 THEN LET io == IF i % 2 = 0 THEN "input" ELSE "output" n == i \div 2
+                IN [text |-> io \o ": pr_1/" \o ToString(n) \o ".", tree |-> [k |-> io, p |-> [p |-> "pr_1", n |-> n]]]
+  ELSE IF i < 10 THEN LET j == i - 6
+                          srt == <<"", "integer", "symbol", "general">>[j + 1]
+                      IN [text |-> "input: c_1" \o (IF srt = "" THEN "" ELSE " -> " \o srt) \o ".",
+                          tree |-> [k |-> "placeholder", c |-> "c_1", s |-> IF srt = "integer" THEN "i" ELSE IF srt = "symbol" THEN "s" ELSE "g"]]
+  ELSE LET e == SpecEntry((i - 10) * 5) IN [text |-> e.text, tree |-> [k |-> "formula", a |-> e.tree]]
+
 A0(p) == [k |-> "atom", p |-> p, args |-> <<>>]
 GV(x) == [k |-> "var", v |-> x, s |-> "g"]
 IV(x) == [k |-> "var", v |-> x, s |-> "i"]
